@@ -7,7 +7,15 @@ spec -> impl : TLC explores MC_Preprocess (every string up to the bound over nin
                allsorts::scripts::preprocess_text and compares by equality.
 impl -> spec : seeded random strings per script tag are recorded and judged by Trace_Preprocess
                (relational clauses + documented pipeline).
-The modified-combining-class table is dumped from allsorts first and is an input of both.
+table        : the modified-combining-class table is part of the specification (specs/ModifiedCcc.tla:
+               canonical class -> modified class as data, with lemmas TLC checks).  MC_ModifiedCcc prints
+               the prescribed value per canonical class; the harness calls allsorts'
+               modified_combining_class on every code point of that canonical class (crate
+               unicode-canonical-combining-class) and compares by equality.  A difference is the
+               violation mcc|ccc=<n>|want=<a>|got=<b>.
+The reordering clauses of the other two directions are still evaluated with the table dumped from
+allsorts, so that a wrong table value shows up once, as a table difference, not as thousands of
+reordering mismatches.
 """
 import concurrent.futures
 import json
@@ -19,8 +27,16 @@ from vlib import Violation
 LEVEL = "model_checking"
 
 ASSUMPTIONS = [
-    "the modified combining class table is an input (dumped from allsorts' public "
-    "unicode::mcc::modified_combining_class); C17 does not constrain its values",
+    "the modified combining class table is specified in ModifiedCcc.tla (identity on the canonical classes "
+    "except Hebrew 10..26 permuted after the SBL Hebrew manual / HarfBuzz, Telugu 84->4 and 91->5, Thai "
+    "103->3, as documented in allsorts' src/unicode/mcc.rs) and compared with allsorts' public "
+    "unicode::mcc::modified_combining_class for every code point; a value is prescribed only for the 56 "
+    "canonical classes that characters have (Unicode 16, the enum of the crate "
+    "unicode-canonical-combining-class) - unassigned class numbers are not compared",
+    "canonical combining classes are taken from the crate unicode-canonical-combining-class (the same data "
+    "allsorts reads), not from an independent copy of UnicodeData.txt",
+    "the reordering clauses (replay and trace judge) are evaluated with the class table dumped from allsorts, "
+    "whose values the table comparison constrains",
     "a character is a mark iff its modified class is not 0; every other character is a base",
     "tables of the spec are transcribed from UTR #53 (MCM list, AMTRA step 2), UnicodeData canonical "
     "decompositions (Indic split vowels, U+09DF), the Thai/Lao and Khmer OpenType shaping documents; the "
@@ -81,6 +97,48 @@ def _judge(ctx, trace, mcc, tag, parts):
     return total, mism, dev
 
 
+def _mcc_key(m):
+    if m.get("panic"):
+        return "mcc|ccc=%d|panic|%s" % (m["ccc"], _panic_class(m["panic"]))
+    return "mcc|ccc=%d|want=%d|got=%d" % (m["ccc"], m["want"], m["got"])
+
+
+def _mcc_viol(m):
+    what = ("class table: allsorts::unicode::mcc::modified_combining_class gives modified class %d to %d of the %d "
+            "code points of canonical combining class %d (%s; e.g. %s)%s; ModifiedCcc.tla prescribes %d" % (
+                m["got"], m["count"], m["of"], m["ccc"], m.get("script", ""),
+                " ".join("U+%04X" % c for c in m["cps"][:4]), (" PANIC " + m["panic"]) if m.get("panic") else "",
+                m["want"]))
+    return Violation(_mcc_key(m), what, {"source": "table", **m})
+
+
+def _class_table(ctx, binp, tag="mcccc", only=None):
+    """spec -> impl for the class table. Returns (TlcResult, harness stats, mismatch dicts, cases)."""
+    cases_path = ctx.path(tag + "_cases.ndjson")
+    mc = vlib.run_tlc(ctx, "MC_ModifiedCcc", "MC_ModifiedCcc.cfg", tag, workers=1, timeout=300, xmx="2g")
+    cases = [json.loads(x) for x in mc.printed.get("CASE", [])]
+    cases.sort(key=lambda c: c["ccc"])
+    if [c["ccc"] for c in cases] != list(range(256)):
+        raise vlib.ToolError("MC_ModifiedCcc did not print one CASE per canonical class 0..255")
+    if only is not None:
+        cases = [c for c in cases if c["ccc"] == only]
+    # binding self-check: an expectation no tree can meet (outside 0..255) must be reported
+    doc = [c for c in cases if c["documented"] and c["ccc"] != 0] or cases
+    bad = dict(doc[-1], want=doc[-1]["want"] + 1000, id="selftest-corrupt")
+    vlib.write_ndjson(cases_path, cases + [bad])
+    mm_path = ctx.path(tag + "_mismatches.ndjson")
+    st = vlib.run_harness(binp, ["classes", cases_path, mm_path])
+    mism, planted_seen = [], False
+    for m in vlib.read_ndjson(mm_path):
+        if m.get("id") == "selftest-corrupt":
+            planted_seen = True
+        else:
+            mism.append(m)
+    if not planted_seen and only is None:
+        raise vlib.ToolError("binding self-check failed: the harness accepted a corrupted class table case")
+    return mc, st, mism, cases
+
+
 def _event(i, case, tag, inp, out, panic=""):
     return {"i": i, "case": case, "ev": "Preprocess", "a": {"tag": tag, "in": inp}, "o": {"out": out, "panic": panic}}
 
@@ -92,6 +150,24 @@ def run(ctx):
     ctx.note("class table: %s" % json.dumps(tab))
     if tab.get("entries", 0) < 100:
         raise vlib.ToolError("class table is implausibly small")
+
+    # ---- the class table itself (spec -> impl) ---------------------------------------------------
+    tmc, tst, tmism, tcases = _class_table(ctx, binp)
+    ctx.note("MC_ModifiedCcc: %d states, lemmas of ModifiedCcc hold (%.1fs); classes: %s" %
+             (tmc.distinct, tmc.wall, json.dumps(tst)))
+    table_violations = [_mcc_viol(m) for m in tmism]
+    n_doc = sum(1 for c in tcases if c["documented"])
+    n_exc = sum(1 for c in tcases if c["exceptional"])
+    # vacuity guards, from TLC's cases and the crate's canonical classes (not from allsorts' answers)
+    if n_doc < 50 or n_exc < 19:
+        raise vlib.ToolError("ModifiedCcc documents %d classes, %d exceptional: table is vacuous" % (n_doc, n_exc))
+    if tst["classes_compared"] != n_doc or tst["exceptional_classes_exercised"] != n_exc:
+        raise vlib.ToolError("class table comparison is vacuous: %d of %d documented classes and %d of %d exceptional "
+                             "classes have a code point in the crate's data" %
+                             (tst["classes_compared"], n_doc, tst["exceptional_classes_exercised"], n_exc))
+    if tst.get("undocumented_classes_seen"):
+        print("OBSERVATION: property=C17 canonical combining classes %s have code points but no documented modified "
+              "class (newer Unicode data?); not compared" % tst["undocumented_classes_seen"], flush=True)
 
     # ---- spec -> impl -------------------------------------------------------------------------
     cfg = "MC_Preprocess_quick.cfg" if ctx.quick else "MC_Preprocess_thorough.cfg"
@@ -167,7 +243,7 @@ def run(ctx):
     if total != rec["events"] + len(planted) + len(extra):
         raise vlib.ToolError("judge consumed %d events, trace has %d" % (total, rec["events"] + len(planted) + len(extra)))
 
-    violations = []
+    violations = list(table_violations)
     seen_planted = set()
     judged_generated = set()
     for m in sorted(mism, key=lambda m: m["i"]):
@@ -218,8 +294,19 @@ def run(ctx):
         "dev_readings_taken_recorded": len(dev),
         "observations": {fam: {"count": len(lst), "smallest": lst[0]} for fam, lst in obs.items()},
         "class_table_entries": tab["entries"],
+        "class_table_states": tmc.distinct,
+        "class_table_classes_documented": n_doc,
+        "class_table_classes_compared": tst["classes_compared"],
+        "class_table_classes_compared_per_script": tst.get("classes_compared_per_script"),
+        "class_table_code_points_compared": tst["code_points_compared"],
+        "class_table_nonstarter_code_points_compared": tst["nonstarter_code_points_compared"],
+        "class_table_exceptional_classes_exercised": tst["exceptional_classes_exercised"],
+        "class_table_exceptional_code_points": tst["exceptional_code_points"],
+        "class_table_undocumented_classes_seen": tst.get("undocumented_classes_seen"),
+        "class_table_mismatches": len(tmism),
         "tlc_depth": mc.depth,
-        "binding_selfcheck": "corrupted generated case reported by the harness; two corrupted events rejected by the judge",
+        "binding_selfcheck": "corrupted class table case and corrupted generated case reported by the harness; "
+                             "two corrupted events rejected by the judge",
         "exhaustive": True,
         "explanation": "exhaustive over the bounded model (config %s: all strings up to the length bound over nine "
                        "code points per alphabet, 19 alphabets); recorded traces are random samples" % cfg,
@@ -235,6 +322,15 @@ def run(ctx):
 def replay(ctx, path):
     d = json.load(open(path))["detail"]
     binp = vlib.build_harness("c17_preprocess")
+    if d.get("source") == "table" or d.get("kind") == "mcc":
+        # the expectation is computed again by TLC, allsorts is asked again
+        _, _, mism, cases = _class_table(ctx, binp, tag="replaymcc", only=d["ccc"])
+        for m in mism:
+            print("REPRODUCED key=%s %s" % (_mcc_key(m), _mcc_viol(m).what))
+        if not mism:
+            print("not reproduced: every code point of canonical class %d gets modified class %d" %
+                  (d["ccc"], cases[0]["want"]))
+        return 1 if mism else 0
     mcc = ctx.path("mcc.json")
     vlib.run_harness(binp, ["table", mcc])
     one = ctx.path("one_cases.ndjson")
